@@ -672,6 +672,30 @@ func (r *Resolver) carrierPathValue(addr ssa.Value, depth int) (ssa.Value, *Reso
 		}
 	}
 	bo := r.Of(cur)
+	if bo.K == "call" && bo.R != nil && bo.Idx <= 0 {
+		// a carrier built by a constructor function: every return yields
+		// the same struct literal of the constructor
+		if call, ok := bo.V.(*ssa.Call); ok {
+			if sc := staticCallee(call.Common()); sc != nil && InRepo(sc) && sc.Blocks != nil {
+				var lit *ssa.Alloc
+				okAll := true
+				allInstrs(sc, func(in ssa.Instruction) {
+					if ret, isRet := in.(*ssa.Return); isRet && len(ret.Results) >= 1 {
+						a, isAlloc := strip(ret.Results[0]).(*ssa.Alloc)
+						if !isAlloc || (lit != nil && lit != a) {
+							okAll = false
+							return
+						}
+						lit = a
+					}
+				})
+				if okAll && lit != nil {
+					return bo.R.Bind(sc, call).allocPathValue(lit, path, depth+1)
+				}
+			}
+		}
+		return nil, nil
+	}
 	al, ok := bo.V.(*ssa.Alloc)
 	if bo.K != "alloc" || !ok {
 		return nil, nil
